@@ -35,11 +35,13 @@ long g_point[verif::POINT_NUM];
 
 long g_root_in_iter = 0;
 bool g_root_loop = false;
+long g_iter_end_visits[16] = {0};
 
 void hook(verif::Point p, const verif::Ctx& c)
 {
     g_point[p]++;
     if (p == verif::ITER_BEGIN) g_root_in_iter = 0;
+    if (p == verif::ITER_END && c.a >= 0 && c.a < 16) g_iter_end_visits[c.a] = g_visits;
     if (p == verif::NODE || p == verif::QNODE)
     {
         ++g_visits;
@@ -348,6 +350,44 @@ bool threat_root(Board& out)
     return false;
 }
 
+// a tempting capture (of a queen) that walks into a mate in one, while other moves are fine: the depth-1 favourite is
+// refuted at depth 2 - whatever an aborted search leaves behind at that moment must not become a mate claim
+bool greedy_capture_root(Board& out)
+{
+    for (int tries = 0; tries < 3000; ++tries)
+    {
+        Board b;
+        b.stm = orc::WHITE;
+        int kf = 5 + int(RNG->below(3));  // king f1..h1 behind its pawns
+        gen::put(b, orc::sq_of(kf, 0), orc::WK);
+        for (int df = -1; df <= 1; ++df)
+            if (orc::on_board(kf + df, 1)) gen::put(b, orc::sq_of(kf + df, 1), orc::WP);
+        int x = int(RNG->below(5)), y = int(RNG->below(5));
+        if (x == y) continue;
+        gen::put(b, orc::sq_of(x, 0), orc::WR);
+        gen::put(b, orc::sq_of(x, 4 + int(RNG->below(3))), orc::BQ);
+        gen::put(b, orc::sq_of(y, 5 + int(RNG->below(3))), RNG->below(3) ? orc::BR : orc::BQ);
+        gen::put(b, orc::sq_of(5 + int(RNG->below(3)), 7), orc::BK);
+        for (int i = 2 + int(RNG->below(4)); i > 0; --i) gen::put(b, orc::sq_of(int(RNG->below(8)), 1 + int(RNG->below(6))), RNG->below(2) ? orc::BP : orc::WP);
+        for (int i = int(RNG->below(4)); i > 0; --i) gen::put(b, RNG->below(64), orc::make_pc(int(RNG->below(2)), RNG->below(2) ? orc::KNIGHT : orc::BISHOP));
+        if (RNG->below(2)) gen::put(b, RNG->below(64), orc::WQ);
+        if (b.king_sq(0) < 0 || b.king_sq(1) < 0 || !b.retro_legal() || !gen::promotions_stay_in_domain(b) || b.in_check(b.stm)) continue;
+        if (!orc::mating_moves_in_one(b).empty()) continue;
+        bool tempting = false;
+        int safe = 0;
+        for (const orc::Move& m : b.legal())
+        {
+            bool mated = !orc::mating_moves_in_one(b.after(m)).empty();
+            if (mated && b.sq[m.to] == orc::BQ) tempting = true;
+            if (!mated) ++safe;
+        }
+        if (!tempting || safe < 3) continue;
+        out = RNG->below(2) ? b.mirrored() : b;
+        return true;
+    }
+    return false;
+}
+
 std::string ctx_stop(const GoSpec& g, const RunResult& r)
 {
     if (g.stop_at < 0) return "none";
@@ -602,6 +642,99 @@ int main(int argc, char** argv)
                 set_cur(B, s, tbl);
                 RunResult r1 = run_go(*rig, P, B, s, CAP);
                 judge_all(B, s, r1, tbl);
+            }
+        }
+        if (PROP == "C08" && i % 3 == 1 && legal.size() >= 2)
+        {
+            // an earlier ABORTED search of the same position in the same session (node budget of 1, or a stop at some node
+            // visit), no `position` in between: whatever it left in the table must not turn into a false mate claim
+            GoSpec a;
+            if (rng.below(2))
+            {
+                a.nodes = 1;
+                if (rng.below(2)) a.depth = 6;
+            }
+            else
+            {
+                a.infinite = true;
+                a.stop_at = long(50 + rng.below(rng.below(2) ? 5000 : 60000));
+            }
+            set_cur(B, a, table);
+            RunResult ra = run_go(*rig, P, B, a, CAP);
+            (void)ra;
+            GoSpec b2;
+            b2.depth = 1 + int(rng.below(3));
+            set_cur(B, b2, "after-aborted-search-of-same-root");
+            RunResult rb = run_go(*rig, P, B, b2, CAP);
+            judge_all(B, b2, rb, "after-aborted-search-of-same-root");
+        }
+        if (PROP == "C08" && i % 12 == 9)
+        {
+            Board G;
+            if (greedy_capture_root(G))
+            {
+                Position PG(G.fen());
+                rig->table.clear();
+                GoSpec probe;
+                probe.depth = 2;
+                g_iter_end_visits[1] = g_iter_end_visits[2] = 0;
+                set_cur(G, probe, "fresh");
+                RunResult rp = run_go(*rig, PG, G, probe, CAP);
+                judge_all(G, probe, rp, "fresh");
+                long v1 = g_iter_end_visits[1], v2 = g_iter_end_visits[2];
+                // abort inside iteration 2 (same table contents as the probe had: cleared first), then search again
+                for (int j = 0; j < 6 && v2 > v1 + 1; ++j)
+                {
+                    rig->table.clear();
+                    GoSpec a;
+                    a.infinite = true;
+                    a.stop_at = v1 + 1 + long(rng.below(uint32_t(v2 - v1 - 1)));
+                    set_cur(G, a, "fresh");
+                    run_go(*rig, PG, G, a, CAP);
+                    GoSpec b2;
+                    b2.depth = 1 + int(rng.below(2));
+                    set_cur(G, b2, "after-aborted-search-of-same-root");
+                    RunResult rb = run_go(*rig, PG, G, b2, CAP);
+                    judge_all(G, b2, rb, "after-aborted-search-of-same-root");
+                    rec.count("aborted-inside-iteration-2-then-searched-again");
+                }
+                rec.count("roots:tempting-capture-into-mate");
+            }
+        }
+        if (PROP == "C08" && i % 12 == 5)
+        {
+            // en-passant twins: the same placement reached by a single push (no ep right: it is mate) and by a double push
+            // (the ep capture is the only defence). Searching the first must not poison the second.
+            Board E;
+            if (gen::only_ep_evasion(rng, E, 3000))
+            {
+                int pusher = 1 - E.stm;
+                int f = orc::file_of(E.ep);
+                int target = orc::sq_of(f, pusher == orc::WHITE ? 3 : 4), mid = E.ep, origin = orc::sq_of(f, pusher == orc::WHITE ? 1 : 6);
+                Board R1 = E, R2 = E;
+                R1.sq[target] = orc::EMPTY;
+                R1.sq[mid] = orc::make_pc(pusher, orc::PAWN);
+                R2.sq[target] = orc::EMPTY;
+                R2.sq[origin] = orc::make_pc(pusher, orc::PAWN);
+                R1.stm = R2.stm = pusher;
+                R1.ep = R2.ep = -1;
+                if (R1.retro_legal() && R2.retro_legal() && R1.has_legal() && R2.has_legal())
+                {
+                    GoSpec d1;
+                    d1.depth = 2 + int(rng.below(2));
+                    Position P1(R1.fen());
+                    set_cur(R1, d1, "warm");
+                    RunResult r1 = run_go(*rig, P1, R1, d1, CAP);
+                    judge_all(R1, d1, r1, "warm");
+                    rig->table.updateEpoch(1);
+                    GoSpec d2;
+                    d2.depth = 2 + int(rng.below(3));
+                    Position P2(R2.fen());
+                    set_cur(R2, d2, "after-search-of-ep-twin");
+                    RunResult r2 = run_go(*rig, P2, R2, d2, CAP);
+                    judge_all(R2, d2, r2, "after-search-of-ep-twin");
+                    rec.count("ep-twin-scenarios");
+                }
             }
         }
         if (PROP == "C08" && i % 2 == 0)
